@@ -10,8 +10,8 @@ VO_TARGETS = ["Properties/StreamState.vo"]
 
 PROFILES = {
     "C04": ("mixed", "reset", "limits", "shutdown", "queue", "bp"),
-    "C17": ("reset", "mixed", "queue", "shutdown", "limits"),
-    "C07": ("shutdown", "reset", "mixed", "flow"),
+    "C17": ("reset", "lastframe", "mixed", "queue", "lastframe", "shutdown", "limits"),
+    "C07": ("shutdown", "reset", "queue", "mixed", "flow", "queue"),
     "C09": ("chaos", "legal", "race", "chaos", "race", "legal", "mixed"),
 }
 
